@@ -19,14 +19,15 @@ import (
 )
 
 type Scenario struct {
-	Kind    string   `json:"kind"`
-	Format  string   `json:"format,omitempty"`
-	History []string `json:"history"`
-	Cuts    [][]int  `json:"per_doc_cuts,omitempty"`
-	Probe   string   `json:"probe"`
-	BufSize int      `json:"bufsize,omitempty"`
-	Reads   []int    `json:"read_sizes,omitempty"`
-	Types   []string `json:"go_types,omitempty"`
+	Kind        string   `json:"kind"`
+	Format      string   `json:"format,omitempty"`
+	History     []string `json:"history"`
+	Cuts        [][]int  `json:"per_doc_cuts,omitempty"`
+	Probe       string   `json:"probe"`
+	BufSize     int      `json:"bufsize,omitempty"`
+	Reads       []int    `json:"read_sizes,omitempty"`
+	Types       []string `json:"go_types,omitempty"`
+	UserFolders int      `json:"user_folders,omitempty"` // model.FolderOpts variant on the iterator
 }
 
 type Engine struct{}
@@ -422,6 +423,10 @@ func iterator(c *simkit.Choices, x *simkit.Ctx) *simkit.Violation {
 	st := x.Stats
 	nh := 1 + c.N(6)
 	sc := &Scenario{Kind: "iterator"}
+	if c.N(4) == 0 {
+		sc.UserFolders = 1 + c.N(model.NumFolderVariants-1)
+	}
+	fopts := model.FolderOpts(sc.UserFolders)
 	var vals []interface{}
 	related := model.PickRelated(c, nh+1, false) // fold-only types included
 	for i := 0; i <= nh; i++ {
@@ -440,14 +445,14 @@ func iterator(c *simkit.Choices, x *simkit.Ctx) *simkit.Violation {
 	}
 	simkit.SetCurrent(sc)
 	st.Eval(1)
-	st.Distinct(simkit.NewDigest().Str("iter").Str(fmt.Sprint(sc.History, sc.Types)).Str(sc.Probe).Sum())
+	st.Distinct(simkit.NewDigest().Str("iter").Str(fmt.Sprint(sc.History, sc.Types, sc.UserFolders)).Str(sc.Probe).Sum())
 	t := simkit.NewTap(nil)
 	t.Clock = &x.Clock
 	var perr error
 	skip := false
 	cur := 0
 	pi := simkit.Guard(func() {
-		it, err := gotype.NewIterator(t)
+		it, err := gotype.NewIterator(t, fopts...)
 		if err != nil {
 			skip = true
 			return
@@ -468,7 +473,7 @@ func iterator(c *simkit.Choices, x *simkit.Ctx) *simkit.Violation {
 	})
 	if pi != nil {
 		// a value that makes a NEW iterator panic as well is not a reuse question
-		if fp := simkit.Guard(func() { gotype.Fold(vals[cur], simkit.NewTap(nil)) }); fp != nil {
+		if fp := simkit.Guard(func() { gotype.Fold(vals[cur], simkit.NewTap(nil), fopts...) }); fp != nil {
 			st.Probe("value-panics-on-a-new-iterator-too")
 			return nil
 		}
@@ -479,7 +484,7 @@ func iterator(c *simkit.Choices, x *simkit.Ctx) *simkit.Violation {
 	}
 	ft := simkit.NewTap(nil)
 	var ferr error
-	if pi := simkit.Guard(func() { ferr = gotype.Fold(vals[nh], ft) }); pi != nil {
+	if pi := simkit.Guard(func() { ferr = gotype.Fold(vals[nh], ft, fopts...) }); pi != nil {
 		return nil
 	}
 	if (ferr == nil) != (perr == nil) {
